@@ -19,9 +19,11 @@ import (
 	"gorm.io/gorm/clause"
 	"gorm.io/gorm/logger"
 
+	"database/sql"
 	"verifharness/cmd/c18/probe"
 	"verifharness/cmd/c18/srcfacts"
-	"verifharness/gdb"
+
+	"gorm.io/driver/sqlite"
 	"verifharness/lib"
 	"verifharness/recdrv"
 )
@@ -804,6 +806,51 @@ func init() {
 			}
 		}
 	}
+	// writes whose statement is a query (RETURNING), with the default transaction and without it: under
+	// SkipDefaultTransaction no BEGIN stands between a cancelled context and the statement itself
+	for _, skipTx := range []bool{false, true} {
+		skipTx := skipTx
+		sfx := ""
+		if skipTx {
+			sfx = "_skiptx"
+		}
+		sess := func(h *gorm.DB) *gorm.DB {
+			if skipTx {
+				return h.Session(&gorm.Session{SkipDefaultTransaction: true})
+			}
+			return h
+		}
+		rw := []fam{
+			{name: "create_returning" + sfx, run: func(h *gorm.DB) error { return sess(h).Create(&Pet{Name: name("cr")}).Error }, path: always()},
+			{name: "create_returning_clause" + sfx, run: func(h *gorm.DB) error {
+				return sess(h).Clauses(clause.Returning{Columns: []clause.Column{{Name: "id"}, {Name: "name"}}}).Create(&[]Pet{{Name: name("cr")}, {Name: name("cr")}}).Error
+			}, path: always()},
+			{name: "update_returning" + sfx, run: func(h *gorm.DB) error {
+				var us []User
+				return sess(h).Model(&us).Clauses(clause.Returning{}).Where("id = ?", 1).Update("age", gorm.Expr("age + 1")).Error
+			}, path: always()},
+			{name: "delete_returning" + sfx, run: func(h *gorm.DB) error {
+				var ps []Pet
+				return sess(h).Clauses(clause.Returning{}).Where("user_id = ?", 2).Delete(&ps).Error
+			}, path: always()},
+			{name: "delete_returning_columns" + sfx, run: func(h *gorm.DB) error {
+				var ls []Lang
+				return sess(h).Clauses(clause.Returning{Columns: []clause.Column{{Name: "name"}}}).Where("id = ?", 1).Delete(&ls).Error
+			}, path: always()},
+			{name: "delete_returning_in_tx" + sfx, run: func(h *gorm.DB) error {
+				return sess(h).Transaction(func(tx *gorm.DB) error {
+					var ts []Toy
+					return tx.Clauses(clause.Returning{}).Where("id > ?", 0).Delete(&ts).Error
+				})
+			}, path: always(litBegin)},
+		}
+		for _, f := range rw {
+			families = append(families, f)
+			if f.name != "delete_returning_in_tx"+sfx {
+				singleCall[f.name] = true
+			}
+		}
+	}
 	forms := []fam{
 		{name: "am_append_value_forms", run: func(h *gorm.DB) error {
 			if err := h.Model(&User{ID: 1}).Association("Pets").Append([]Pet{{Name: name("vf")}, {Name: name("vf")}}); err != nil {
@@ -895,8 +942,13 @@ var copies probe.Copies
 func runCase(in Input, facts srcfacts.Facts) Obs {
 	wn++
 	dsn := fmt.Sprintf("file:c18_%d_%d?mode=memory&cache=shared", os.Getpid(), wn)
-	db, rec, sqlDB, err := gdb.Open(gdb.Opt{DSN: dsn, Config: &gorm.Config{PrepareStmt: in.Prep, DisableForeignKeyConstraintWhenMigrating: true}})
+	// gorm on SQLite through the recording driver, with the context-identity layer in front of it
+	rec := recdrv.NewRecorder()
+	clog := &ctxLog{}
+	sqlDB := sql.OpenDB(ctxConnector{inner: recdrv.NewConnector(dsn, rec), log: clog})
+	db, err := gorm.Open(sqlite.Dialector{Conn: sqlDB}, &gorm.Config{PrepareStmt: in.Prep, DisableForeignKeyConstraintWhenMigrating: true, Logger: logger.Discard})
 	lib.Must(err)
+	rec.Reset()
 	defer sqlDB.Close()
 	lib.Must(db.AutoMigrate(&Profile{}, &Office{}, &Company{}, &Toy{}, &Pet{}, &Lang{}, &User{}))
 	nextName = 0
@@ -931,12 +983,13 @@ func runCase(in Input, facts srcfacts.Facts) Obs {
 		if f == nil {
 			panic("unknown family " + op.Fam)
 		}
-		ctx := context.WithValue(context.Background(), recdrv.TagKey, fmt.Sprintf("tag-%d", op.Tag))
+		// the caller's context: tagged, cancellable (its Done channel is what the driver must be handed)
+		ctx, cancelOp := context.WithCancel(context.WithValue(context.Background(), recdrv.TagKey, fmt.Sprintf("tag-%d", op.Tag)))
+		clog.register(fmt.Sprintf("tag-%d", op.Tag), ctx.Done())
 		if op.Cancelled {
-			c2, cancel := context.WithCancel(ctx)
-			cancel()
-			ctx = c2
+			cancelOp()
 		}
+		defer cancelOp()
 		var h *gorm.DB
 		if op.Bind == "session" {
 			h = db.Session(&gorm.Session{Context: ctx})
@@ -951,6 +1004,7 @@ func runCase(in Input, facts srcfacts.Facts) Obs {
 		}
 		before := dump()
 		rec.Reset()
+		clog.reset()
 		var oo OpOut
 		func() {
 			defer func() {
@@ -963,8 +1017,10 @@ func runCase(in Input, facts srcfacts.Facts) Obs {
 			}
 		}()
 		evs := rec.Snapshot()
+		notes := clog.snapshot()
 		oo.Unchanged = dump() == before
 		oo.Events = []EvOut{}
+		ni := 0
 		for _, e := range evs {
 			kind := ""
 			switch e.Kind {
@@ -982,6 +1038,14 @@ func runCase(in Input, facts srcfacts.Facts) Obs {
 			tag := 0
 			if strings.HasPrefix(e.Tag, "tag-") {
 				fmt.Sscan(e.Tag[4:], &tag)
+			}
+			// the context must be the caller's for cancellation too, not only carry its values: a context
+			// with the caller's tag but another (or no) Done channel is observed as -tag
+			if ni < len(notes) {
+				if tag > 0 && !notes[ni].sameDone {
+					tag = -tag
+				}
+				ni++
 			}
 			ev := EvOut{Kind: kind, Query: e.Query, Tx: e.Tx != 0, Tag: tag, Failed: e.Err != "", Done: e.CtxErr}
 			ev.Path, ev.Site, ev.Inner = attribute(f, e, in.Prep || has(op.Derive, "prepare_stmt"))
@@ -1206,7 +1270,7 @@ func main() {
 			}
 		}
 	}
-	budget := 1300
+	budget := 1400
 	if a.Tier == "thorough" {
 		budget = 2500
 	}
@@ -1242,7 +1306,7 @@ func main() {
 		}
 		add("main", in)
 	}
-	out.Extra["rule"] = "cases = programs of 1..4 operations on one database, each operation from one of " + fmt.Sprint(len(families)) + " families (Create with belongs-to/has-many/many2many values, CreateInBatches, Save existing/missing, Updates, Delete with Select(associations), Preload single/nested/clause.Associations, Joins, Joins + preload nested under the joined relation with First/Take/Last/Find(&one)/Find(&slice)/Find(&[]*T) destinations and inside Transaction, Association mode over belongs-to / has-one / has-many / many2many x Append/Replace/Delete/Clear/Count/Find x one record / slice of records x scoped / Unscoped, FirstOrInit, FirstOrCreate (found+Assign, Attrs), Count with Distinct/Group/Select, Save of a slice, UpdateColumn(s), Delete with conditions, Delete with Select(clause.Associations), cascading Delete of one has-many / has-one / many2many relation or all, scoped and Unscoped, with and without SkipDefaultTransaction, Preload with conditions and with a scope function, Connection, manual SavePoint/RollbackTo, Begin..Rollback, Row/Rows/Exec inside Transaction, Scopes, FindInBatches with a statement from the batch handle, FindInBatches with Limit / Offset+Limit over several batches in and out of Transaction, a Transaction block deriving a side session with another context, Count, Pluck, First/Take/Last, FirstOrCreate, Scan, Rows, Row, Raw, Exec, Transaction plain/nested with save points/rolled back, Begin..Commit) started from db.WithContext(ctx) or db.Session(&Session{Context: ctx}) with a distinct tag, optionally through a further caller-derived session Session{NewDB / SkipHooks / PrepareStmt / SkipDefaultTransaction / DisableNestedTransaction / AllowGlobalUpdate / FullSaveAssociations / PropagateUnscoped / QueryFields / Initialized / CreateBatchSize combinations} that does not repeat the context, optionally after a side session bound to ANOTHER context (Session{NewDB,Context} / Session{Context} / WithContext, used and/or cancelled) was derived from the very handle the operation runs on, PrepareStmt on/off, 1/8 pre-cancelled; distinct = distinct (PrepareStmt, family/bind/cancelled sequence); non-trivial = at least 2 driver events observed"
+	out.Extra["rule"] = "cases = programs of 1..4 operations on one database, each operation from one of " + fmt.Sprint(len(families)) + " families (Create with belongs-to/has-many/many2many values, CreateInBatches, Save existing/missing, Updates, Delete with Select(associations), Preload single/nested/clause.Associations, Joins, Joins + preload nested under the joined relation with First/Take/Last/Find(&one)/Find(&slice)/Find(&[]*T) destinations and inside Transaction, Association mode over belongs-to / has-one / has-many / many2many x Append/Replace/Delete/Clear/Count/Find x one record / slice of records x scoped / Unscoped, FirstOrInit, FirstOrCreate (found+Assign, Attrs), Count with Distinct/Group/Select, Save of a slice, UpdateColumn(s), Delete with conditions, Delete with Select(clause.Associations), cascading Delete of one has-many / has-one / many2many relation or all, scoped and Unscoped, with and without SkipDefaultTransaction, writes whose statement is a query (Create / Update / Delete with RETURNING, in and out of Transaction) with and without SkipDefaultTransaction, Preload with conditions and with a scope function, Connection, manual SavePoint/RollbackTo, Begin..Rollback, Row/Rows/Exec inside Transaction, Scopes, FindInBatches with a statement from the batch handle, FindInBatches with Limit / Offset+Limit over several batches in and out of Transaction, a Transaction block deriving a side session with another context, Count, Pluck, First/Take/Last, FirstOrCreate, Scan, Rows, Row, Raw, Exec, Transaction plain/nested with save points/rolled back, Begin..Commit) started from db.WithContext(ctx) or db.Session(&Session{Context: ctx}) with a distinct tag, optionally through a further caller-derived session Session{NewDB / SkipHooks / PrepareStmt / SkipDefaultTransaction / DisableNestedTransaction / AllowGlobalUpdate / FullSaveAssociations / PropagateUnscoped / QueryFields / Initialized / CreateBatchSize combinations} that does not repeat the context, optionally after a side session bound to ANOTHER context (Session{NewDB,Context} / Session{Context} / WithContext, used and/or cancelled) was derived from the very handle the operation runs on, PrepareStmt on/off, 1/8 pre-cancelled; distinct = distinct (PrepareStmt, family/bind/cancelled sequence); non-trivial = at least 2 driver events observed"
 	lib.Must(out.Flush())
 }
 
